@@ -25,7 +25,7 @@ REAL_VS_STUB = {'real': ['kyupy.circuit: GrowingList, IndexList, Node, Line, Cir
                 'stub': ['none (RefGraph is the reference model, not a replacement)']}
 ASSUMPTIONS = ['trailing unconnected pin slots (None at the end of a pin list) are not part of the compared state: a restore legitimately drops them',
                'substitute is checked by the invariants after the step and the model is re-synchronised from the real object (its rewiring is too rich to predict; its function preservation is C10)']
-EXPECTED_PROBES = ['double_remove', 'shared_name', 'hole_filled_by_last', 'restore_mid_history', 'copy_mid_history', 'duplicate_name_rejected', 'explicit_pin', 'fork_squeeze', 'eliminate_spliced', 'eliminate_kept_undriven', 'substitute_done', 'substitute_ignored_input']
+EXPECTED_PROBES = ['wide_fork', 'double_remove', 'shared_name', 'hole_filled_by_last', 'restore_mid_history', 'copy_mid_history', 'duplicate_name_rejected', 'explicit_pin', 'fork_squeeze', 'eliminate_spliced', 'eliminate_kept_undriven', 'substitute_done', 'substitute_ignored_input']
 
 KINDS = ['and', 'or', 'nand', 'not', 'buf', 'xor', 'dff', 'latch', 'input', 'output', 'AOI21', 'mux21', 'DFFX1', '__const0__', 'INPUT', 'OUTPUT', 'SDFFLATCHX1', 'Put', 'DLATCH']
 OPS = ['node', 'node', 'node', 'fork', 'line', 'line', 'line', 'line', 'linex', 'linex', 'rmline', 'rmline', 'rmnode', 'gof', 'io', 'ioset', 'elim', 'subst', 'copy', 'restore', 'dup']
@@ -40,6 +40,9 @@ def gen(rng, tier, i):
         if r < w_struct: op = rng.choice(['elim', 'subst', 'copy', 'restore'])
         else: op = rng.choice(OPS)
         ops.append([op] + [rng.randrange(1 << 16) for _ in range(5)])
+    if rng.random() < 0.02:      # a clock- or reset-like net: one fork with hundreds of branches (pin numbers beyond 127 and 255)
+        pos = rng.randrange(len(ops) + 1)
+        ops[pos:pos] = [['wide', rng.choice([130, 257, 300]), 0, 0, 0, 0]] + ([[rng.choice(['restore', 'copy'])] + [rng.randrange(1 << 16) for _ in range(5)]] if rng.random() < 0.7 else [])
     return {'ops': ops}
 
 
@@ -154,6 +157,17 @@ class Exec:
                 Line(c, self.node_obj(dkey), self.node_obj(rkey))
             m.add_line(dkey, dpin, rkey, rpin)
             did = f'Line({dkey[0]}->{rkey[0]}, pins {dpin},{rpin})'
+        elif kind == 'wide':
+            self.names += 1
+            fname, cname = f'n{self.names}w', f'n{self.names}wc'
+            f = Node(c, fname); m.add_node(fname, '__fork__')
+            g = Node(c, cname, 'and'); m.add_node(cname, 'and')
+            for pin in range(a):
+                if pin % 2: Line(c, f, (g, pin))
+                else: Line(c, (f, pin), (g, pin))
+                m.add_line((fname, True), pin if pin % 2 == 0 else None, (cname, False), pin)
+            res.probe('wide_fork')
+            did = f'fork with {a} branches'
         elif kind == 'rmline':
             if not m.lines: return None
             lids = sorted(m.lines)
